@@ -185,7 +185,7 @@ func explainCreateQuery(sb *strings.Builder, n *ast.CreateQuery, indent string, 
 		}
 		// Dictionary COMMENT
 		if n.Comment != "" {
-			fmt.Fprintf(sb, "%s Literal \\'%s\\'\n", indent, n.Comment)
+			fmt.Fprintf(sb, "%s Literal \\'%s\\'\n", indent, escapeStringLiteral(n.Comment))
 		}
 		return
 	}
